@@ -54,8 +54,9 @@ def allocFromLastPool (g : Geo) (s : St) : Option Nat × St :=
       (some id, { s with pools := s.pools.dropLast ++ [{ p with usage := p.usage + 1 }] })
 
 def increaseCapacity (g : Geo) (s : St) : Bool × St :=
-  if s.tableCap == g.maxPools then (false, s) else
+  if s.tableCap ≥ g.maxPools then (false, s) else
   let newCap := g.wrap (s.tableCap * 2)
+  let newCap := if newCap > g.maxPools || newCap < s.tableCap then g.maxPools else newCap
   if !s.tableHeap then
     let (ok, s) := s.alloc (newCap * g.poolSize)
     if !ok then (false, s) else (true, { s with tableHeap := true, tableCap := newCap })
@@ -64,6 +65,7 @@ def increaseCapacity (g : Geo) (s : St) : Bool × St :=
     if !ok then (false, s) else (true, { s with tableCap := newCap })
 
 def addPool (g : Geo) (s : St) : Bool × St :=
+  if s.pools.length ≥ g.maxPools then (false, s) else
   let (ok, s) := if s.pools.length == s.tableCap then increaseCapacity g s else (true, s)
   if !ok then (false, s) else
   let count := s.pools.length + 1
